@@ -153,7 +153,53 @@ func readerCapacity(readLine, newReader *ssa.Call) (int64, string) {
 		}
 	}
 	if prefixUsed {
-		return 1 << 40, "ReadLine with isPrefix handled"
+		// handled how? a fragment that is appended to / written into an accumulator makes lines of any
+		// length whole again; otherwise (fragments dropped, flagged, counted) a line is only processed whole
+		// when it fits the reader's buffer together with its terminator
+		accumulated := false
+		for _, r := range *readLine.Referrers() {
+			ex, ok := r.(*ssa.Extract)
+			if !ok || ex.Index != 0 {
+				continue
+			}
+			var walk func(v ssa.Value, d int)
+			seen := map[ssa.Value]bool{}
+			walk = func(v ssa.Value, d int) {
+				if d > 6 || seen[v] || v.Referrers() == nil {
+					return
+				}
+				seen[v] = true
+				for _, u := range *v.Referrers() {
+					switch x := u.(type) {
+					case *ssa.Call:
+						if b, ok := x.Call.Value.(*ssa.Builtin); ok && b.Name() == "append" {
+							accumulated = true
+						}
+						switch calleeName(x.Common()) {
+						case "(*bytes.Buffer).Write", "(*strings.Builder).Write":
+							accumulated = true
+						}
+					case *ssa.Slice:
+						walk(x, d+1)
+					case *ssa.Phi:
+						walk(x, d+1)
+					}
+				}
+			}
+			walk(ex, 0)
+		}
+		if accumulated {
+			return 1 << 40, "ReadLine with isPrefix fragments accumulated"
+		}
+		sz := int64(4096)
+		if newReader != nil && calleeName(newReader.Common()) == "bufio.NewReaderSize" {
+			if k, ok := constInt(newReader.Call.Args[1]); ok {
+				sz = k
+			} else {
+				return -1, "bufio.NewReaderSize with a non-constant size"
+			}
+		}
+		return sz - 1, fmt.Sprintf("bufio.Reader(size %d).ReadLine whose isPrefix fragments are not re-assembled (a line that fills the buffer is reported as a fragment)", sz)
 	}
 	size := int64(4096)
 	if newReader != nil && calleeName(newReader.Common()) == "bufio.NewReaderSize" {
